@@ -17,6 +17,8 @@
 (***************************************************************************)
 EXTENDS KeyRing, Json, IOUtils, TLC
 
+MB == INSTANCE MatrixBase
+
 Trace == ndJsonDeserialize(IOEnv.TRACE_FILE)
 
 VARIABLES l,      \* next trace line
@@ -26,7 +28,9 @@ tvars == <<l, bad, skip>>
 
 SeqSet(s) == {s[i] : i \in DOMAIN s}
 NormTab(t) == [k \in DOMAIN t |-> [key |-> t[k].key, vu |-> t[k].vu, exp |-> t[k].exp]]
-NormReq(r) == [srv |-> r.srv, form |-> r.form, sigs |-> SeqSet(r.sigs), ts |-> r.ts, strict |-> r.strict]
+\* a request judged by a room version's own check (ver # "") is strict iff the Matrix specification says so
+NormReq(r) == [srv |-> r.srv, form |-> r.form, sigs |-> SeqSet(r.sigs), ts |-> r.ts, ver |-> r.ver,
+               strict |-> IF r.ver = "" THEN r.strict ELSE MB!StrictKeyValidity(r.ver)]
 NormF(f) == [mode |-> f.mode, tab |-> NormTab(f.tab), all |-> f.all]
 
 Line == Trace[l]
